@@ -138,7 +138,7 @@ fn props() -> Vec<Prop> {
             thorough: 20_000_000,
             subs: &["complete", "truncated-by-peer-close", "complete", "small-scope-enumerated"],
             level: "exploration",
-            rule: "generated valid chunked codings (3 of 4 in the small scope: <=3 chunks of sizes 1..3 and 15/16/255/256/4095/4096; else up to 12 chunks / 12000 bytes; upper/lower hex, leading zeros, extensions, 0..2 trailers, payload with CR/LF/0/;) reached through a real head and always followed by a next message, delivered under drawn arrival cut sets (one-shot, trickle, random, structural at every grammar-class change +-2) into drawn output sizes (0..4, 1, random, large, mixed) with boundary stopping on/off/toggled and re-polls; a sub-batch truncates the coding (peer close); non-trivial = >=2 reads; distinct = abstract trace (grammar class at window end, output class, stop, progress kind)",
+            rule: "generated valid chunked codings (3 of 4 in the small scope: <=3 chunks of sizes 1..3 and 15/16/255/256/4095/4096; else up to 12 chunks / 12000 bytes; upper/lower hex, leading zeros, extensions, 0..2 trailers, payload with CR/LF/0/;) reached through a real head and always followed by a next message, delivered under drawn arrival cut sets (one-shot, trickle, random, structural at every grammar-class change +-2) into drawn output sizes (0..4, 1, random, large, mixed) with boundary stopping on/off/toggled and re-polls; a sub-batch truncates the coding (peer close); BWS before chunk extensions; in 1 of 10 random runs an interim 1xx head is delivered first and polled past; non-trivial = >=2 reads; distinct = abstract trace (grammar class at window end, output class, stop, progress kind)",
             assumptions: &[A_COMMON, "chunk size line (digits + extension) <= 20 bytes: the decoder's sanity limit is treated as a resource limit", "trailer lines contain no bare CR"],
             cells_total: 13 * 8,
             cells_what: "(grammar class of the last visible coding byte: size digit, ext, size CR, size LF, data, data CR, data LF, last-chunk size, trailer, trailer CR, trailer LF, final CR, final LF) x (output space 0 / 1 / 2..4 / larger) x (boundary stop on/off)",
@@ -152,7 +152,7 @@ fn props() -> Vec<Prop> {
             thorough: 12_000_000,
             subs: &["content-length", "close-delimited"],
             level: "exploration",
-            rule: "Content-Length N in {1..3, <=300, 10239..10249, <=70000, 2^32+5, u64::MAX} and close-delimited bodies of 0..70000 bytes reached through a real head, next-message bytes behind the body, drawn arrival schedules and output sizes incl. 0, early peer close in 1 of 8 sized runs; each read is compared with min(window, out, remaining); non-trivial = >=2 reads; distinct = abstract trace",
+            rule: "Content-Length N in {1..3, <=300, 10239..10249, <=70000, 2^32+5, u64::MAX} and close-delimited bodies of 0..70000 bytes reached through a real head, next-message bytes behind the body, drawn arrival schedules and output sizes incl. 0, early peer close in 1 of 8 sized runs; each read is compared with min(window, out, remaining); in 1 of 10 runs an interim 1xx head is delivered first and polled past; non-trivial = >=2 reads; distinct = abstract trace",
             assumptions: &[A_COMMON, "N = 0 never enters the body state (C06 decides that)"],
             cells_total: 0,
             cells_what: "",
@@ -208,7 +208,7 @@ fn props() -> Vec<Prop> {
             thorough: 4000 * scen_exchange::C06_CELLS as u64,
             subs: &["cells"],
             level: "exploration",
-            rule: "schedule-free: the run index enumerates the 4860 coarse cells method(9) x status class(9) x response version(2) x Content-Length class(6) x Transfer-Encoding class(5) round-robin, the seed picks the exact status and values; the real exchange is driven one-shot in 3 of 4 runs and sliced in the rest; compared with an independent RFC 9112 6.3 reference (error / successor state / body_mode / delivered bytes / exact consumption) on Flow and, sampled, on Call::into_body; every run is non-trivial; distinct = (cell, path length, terminal)",
+            rule: "schedule-free: the run index enumerates the 4860 coarse cells method(9) x status class(9) x response version(2) x Content-Length class(6) x Transfer-Encoding class(5) round-robin, the seed picks the exact status and values; the real exchange is driven one-shot in 3 of 4 runs and sliced in the rest; compared with an independent RFC 9112 6.3 reference (error / successor state / body_mode / delivered bytes / exact consumption) on Flow and, sampled, on Call::into_body; every run is non-trivial; distinct = (cell, path length, terminal); history: in 1 of 6 runs an interim 1xx head precedes the final head and an interim-aware caller polls past it (framing = that of the final head)",
             assumptions: &[A_COMMON, "DontCare cells: 3xx != 304 without Content-Length but with a Transfer-Encoding that does not delimit; 'chunked, gzip'; Content-Length '+5'; chunked together with a non-numeric Content-Length", "status 100 is excluded (C11)", "single Content-Length / Transfer-Encoding field"],
             cells_total: scen_exchange::C06_CELLS,
             cells_what: "method x status class {1xx,200,204,2xx,3xx!=304,304,4xx,5xx,6xx-9xx} x version x CL {absent,0,n,u64::MAX,>u64::MAX,non-numeric} x TE {absent,chunked,mixed case,list ending in chunked,other}",
@@ -222,7 +222,7 @@ fn props() -> Vec<Prop> {
             thorough: 15_000_000,
             subs: &["verdicts", "verdicts", "verdicts", "lost-boundaries"],
             level: "exploration",
-            rule: "exchanges over request version x original Connection header (close / keep-alive / both / absent) x method x Expect handshake outcome (produced by the simulated timer racing drawn arrival latencies: continued, refused, timed out, late 100) x response version x status (3xx with and without body: Redirect and Cleanup exits) x framing x response Connection values; an all-five-conditions cell is forced in 1 of 12 runs; verdict compared with the set of true close conditions, reason mapped by keyword, and a reusable connection is really reused for a next exchange; distinct = (condition mask, path length, exit state)",
+            rule: "exchanges over request version x original Connection header (close / keep-alive / both / absent) x method x Expect handshake outcome (produced by the simulated timer racing drawn arrival latencies: continued, refused, timed out, late 100) x response version x status (3xx with and without body: Redirect and Cleanup exits) x framing x response Connection values; an all-five-conditions cell is forced in 1 of 12 runs; verdict compared with the set of true close conditions, reason mapped by keyword, and a reusable connection is really reused for a next exchange; distinct = (condition mask, path length, exit state); histories: an interim 1xx head polled past; in 1 of 3 Redirect endings the redirect is followed and the verdict of that second exchange is judged against the request head it really sent",
             assumptions: &[A_COMMON, "Connection values exactly 'close' / 'keep-alive' on the original request and the response", "unknown reason wording is counted as unverifiable, not alarmed"],
             cells_total: 48,
             cells_what: "(subset of the 5 close conditions that holds) x (Redirect / Cleanup exit); the 16 cells 'close-delimited body and Redirect exit' cannot occur (a redirect without framing header has no body)",
@@ -236,7 +236,7 @@ fn props() -> Vec<Prop> {
             thorough: 8_000_000,
             subs: &["race"],
             level: "exploration",
-            rule: "Expect requests (1.0/1.1, CL/chunked) against a reactive simulated peer (100 after the head with drawn think time, refusal with any status with/without fields, or silence) while the client's await-100 timer (0 .. 60 s simulated) races the peer's think time and per-segment latencies; the first head is cut structurally around the status-line end; every try_read_100 is judged against the ground-truth head by zone, the edge out of Await100 against the decision, and the run continues to Cleanup/Redirect with the delivered response, body and consumption checked; distinct = abstract trace (zone, kind, result per look)",
+            rule: "Expect requests (1.0/1.1, CL/chunked) against a reactive simulated peer (100 after the head with drawn think time, refusal with any status with/without fields, or silence) while the client's await-100 timer (0 .. 60 s simulated) races the peer's think time and per-segment latencies; the first head is cut structurally around the status-line end; every try_read_100 is judged against the ground-truth head by zone, the edge out of Await100 against the decision, and the run continues to Cleanup/Redirect with the delivered response, body and consumption checked; distinct = abstract trace (zone, kind, result per look); a silent peer may send one late 100, two, or a 103 and a late 100 after the request arrived (exactly one 100 is skipped, the rest is handed out in order)",
             assumptions: &[A_COMMON, "a bare 100 only (100 with fields is outside the statement)", "no second interim 100"],
             cells_total: 0,
             cells_what: "",
@@ -264,7 +264,7 @@ fn props() -> Vec<Prop> {
             thorough: 10_000_000,
             subs: &["chains"],
             level: "exploration",
-            rule: "redirect chains of 1..4 hops in a world of origins {a,b,c}.test x {http,https} x ports; the original request carries unique Authorization / Cookie / Content-Length secrets; every hop is a real exchange (one-shot in 3 of 4 runs, sliced otherwise) whose head is read at the receiving origin by the strict reference parser; Locations drawn from absolute (both schemes, ports), scheme-relative, path-absolute and relative forms so that chains leave and return, downgrade and upgrade; both policies; all methods; statuses 300..399; non-trivial = at least one followed hop; distinct = abstract trace (depth, status, Location form, host/scheme change)",
+            rule: "redirect chains of 1..4 hops in a world of origins {a,b,c}.test x {http,https} x ports; the original request carries unique Authorization / Cookie / Content-Length secrets; every hop is a real exchange (one-shot in 3 of 4 runs, sliced otherwise) whose head is read at the receiving origin by the strict reference parser; Locations drawn from absolute (both schemes, ports), scheme-relative, path-absolute and relative forms so that chains leave and return, downgrade and upgrade; both policies; all methods; statuses 300..399; the same clauses are checked on Flow<SendRequest>::headers_map() of every redirected request; non-trivial = at least one followed hop; distinct = abstract trace (depth, status, Location form, host/scheme change)",
             assumptions: &[A_COMMON, "only-if direction as stated: presence of Authorization is not demanded", "Locations inside the RFC 3986 / WHATWG common grammar; the original URI has no dot segments"],
             cells_total: 0,
             cells_what: "",
@@ -278,7 +278,7 @@ fn props() -> Vec<Prop> {
             thorough: 10_000_000,
             subs: &["chains"],
             level: "exploration",
-            rule: "as C13 with the rich Location grammar (absolute with/without ports, scheme-relative, path-absolute, path-relative with ./ and ../, dot-only, query-only, empty, authority-only, fragments, several Location fields) plus a must-error class (missing, non-UTF-8, unterminated IPv6 literal, port > 65535, non-numeric port) and a garbage class; oracle: Flow<Prepare>::uri() after as_new_flow = RFC 3986 5.2 resolution of the last Location against the current hop's URI (independent resolver), request line and derived Host at the receiving origin, chains of up to 4 hops; distinct = abstract trace",
+            rule: "as C13 with the rich Location grammar (absolute with/without ports, scheme-relative, path-absolute, path-relative with ./ and ../, dot-only, query-only, empty, authority-only, fragments, several Location fields) plus a must-error class (missing, non-UTF-8, unterminated IPv6 literal, port > 65535, non-numeric port) and a garbage class; histories: an interim 1xx head with a Location of its own before the 3xx (polled past), one more try_response poll with an empty window after the head was delivered, as_new_flow asked again after 'not followed'; oracle: Flow<Prepare>::uri() after as_new_flow = RFC 3986 5.2 resolution of the last Location against the current hop's URI (independent resolver), request line and derived Host at the receiving origin, chains of up to 4 hops; distinct = abstract trace",
             assumptions: &[A_COMMON, "lower-case hosts, path/query characters from [a-z0-9._~-], no empty path segments; comparison modulo default ports and host case", "Host clause only when the Host header was derived"],
             cells_total: 0,
             cells_what: "",
@@ -292,7 +292,7 @@ fn props() -> Vec<Prop> {
             thorough: 5000 * scen_redirect::C15_CELLS as u64,
             subs: &["cells"],
             level: "exploration",
-            rule: "schedule-free: the run index enumerates all 3600 cells method(9) x status(300..399) x policy(2) x response body(2) for the first hop; a second hop continues with a drawn status so that hop k's method feeds hop k+1; 1 in 40 hops answers a non-3xx status; oracle: Redirect state iff 3xx != 304, status() reports it, as_new_flow None exactly for 307/308 with POST/PUT/PATCH/DELETE, method per table checked on the new flow and at the receiving origin; every run is non-trivial",
+            rule: "schedule-free: the run index enumerates all 3600 cells method(9) x status(300..399) x policy(2) x response body(2) for the first hop; a second hop continues with a drawn status so that hop k's method feeds hop k+1; 1 in 40 hops answers a non-3xx status; histories: interim 1xx head before the 3xx polled past, re-poll with an empty window after delivery; oracle: Redirect state iff 3xx != 304, status() reports it, as_new_flow None exactly for 307/308 with POST/PUT/PATCH/DELETE, method per table checked on the new flow and at the receiving origin; every run is non-trivial",
             assumptions: &[A_COMMON],
             cells_total: scen_redirect::C15_CELLS,
             cells_what: "method x status 300..399 x auth policy x response body yes/no (first hop)",
